@@ -85,4 +85,10 @@ def holdsC17 (d : Xml) (v : RoView) : Bool :=
 def storyIdsNodup (d : Xml) : Bool :=
   decide ((storiesOfDoc d).map (fun s => Xml.childText (some s) "storyID")).Nodup
 
+/-- C17 for the running order's own `script` / `body` accessors, on ANY running order (nothing is asked of
+    its timing metadata): the concatenation of the stories' specifications, in running order -/
+def holdsC17text (d : Xml) (script : List String) (body : List BodyEl) : Bool :=
+  let ss := storiesOfDoc d
+  script == ss.flatMap scriptSpec && body == ss.flatMap bodySpec
+
 end Mrm
